@@ -450,6 +450,48 @@ fn prefilter(args: &[String]) {
                 }
             }
         }
+        // Fonts whose format-1 coverage arrays are NOT in ascending order (out of spec, but accepted by the parser and by
+        // HarfBuzz): the binary search of the coverage still finds some of the glyphs, so the lookup's digest must contain
+        // every listed glyph, whatever the order - otherwise the prefilter skips a lookup that applies without it.
+        for (oi, order) in [vec![5u16, 3, 9], vec![9, 5, 3], vec![3, 9, 5], vec![5, 3], vec![9, 3, 5, 7], vec![3, 5, 9]].iter().enumerate() {
+            for two_subtables in [false, true] {
+                let mut spec = FontSpec::basic(80);
+                let subs: Vec<u16> = order.iter().map(|g| g + 60).collect();
+                let mut sts = vec![SubstSubtable::Single2 { coverage: Coverage::Glyphs(order.clone()), substitutes: subs }];
+                if two_subtables {
+                    sts.insert(0, SubstSubtable::Single2 { coverage: Coverage::Glyphs(vec![40, 20]), substitutes: vec![41, 21] });
+                }
+                spec.gsub = Some(Layout::single_feature(*b"liga", vec![Lookup::new(sts)]));
+                let data = build(&spec);
+                for t in [vec![3u16], vec![5], vec![9], vec![3, 3], vec![9, 3], vec![5, 9, 3, 7], vec![7, 7], vec![20, 3], vec![40, 9, 5]] {
+                    let req = Req { text: t.iter().enumerate().map(|(i, g)| (pua(*g as u32 - 1), i as u32)).collect(), flags: 3, ..Default::default() };
+                    let d1 = data.clone();
+                    let rq = req.clone();
+                    VERIF_PREFILTER_OFF.store(false, Ordering::SeqCst);
+                    let on = catch(move || { let f = rustybuzz::Face::from_slice(&d1, 0).unwrap(); shape_req(&f, &rq) });
+                    let d2 = data.clone();
+                    let rq = req.clone();
+                    VERIF_PREFILTER_OFF.store(true, Ordering::SeqCst);
+                    let off = catch(move || { let f = rustybuzz::Face::from_slice(&d2, 0).unwrap(); shape_req(&f, &rq) });
+                    VERIF_PREFILTER_OFF.store(false, Ordering::SeqCst);
+                    shapes += 1;
+                    gen_shapes += 1;
+                    if let Ok(o) = &off {
+                        if o.iter().any(|g| g.gid >= 60) {
+                            nontrivial += 1;
+                        }
+                    }
+                    if on != off {
+                        diffs += 1;
+                        if diffs <= 10 {
+                            println!("diff font=generated:unsorted-coverage-{}{} req=[{}] on={} off={}", oi, if two_subtables { "-2" } else { "" }, fmt_req(&req),
+                                match &on { Ok(g) => fmt_g(g), Err(e) => format!("panic {}", e) },
+                                match &off { Ok(g) => fmt_g(g), Err(e) => format!("panic {}", e) });
+                        }
+                    }
+                }
+            }
+        }
         println!("prefilter-generated shapes={}", gen_shapes);
     }
     println!("prefilter-summary fonts={} shapes={} nontrivial={} diffs={} stale={}", used, shapes, nontrivial, diffs, stale);
